@@ -181,7 +181,18 @@ func (ex *Exec) NewLoc(t types.Type) Loc {
 		}
 		s := &StructLoc{F: make([]Loc, u.NumFields())}
 		for i := range s.F {
-			s.F[i] = ex.NewLoc(u.Field(i).Type())
+			ft := u.Field(i).Type()
+			if ex.OpaqueNested {
+				// aggregates nested inside a struct are kept as single opaque cells
+				switch ft.Underlying().(type) {
+				case *types.Struct, *types.Array:
+					if _, isTP := ft.(*types.TypeParam); !isTP {
+						s.F[i] = &Cell{V: Opaque{ex.C.Var("zero$"+ft.String(), smt.Val)}}
+						continue
+					}
+				}
+			}
+			s.F[i] = ex.NewLoc(ft)
 		}
 		return s
 	case *types.Array:
